@@ -66,6 +66,11 @@ pub fn mz_result(r: &miniz_oxide::MZResult) -> String {
 }
 
 fn dec_summary(zlib: bool, z: &[u8]) -> Value {
+    dec_summary_eq(zlib, z, None).0
+}
+
+/// Returns the summary and whether the crate's own decoder reproduced `want` exactly.
+fn dec_summary_eq(zlib: bool, z: &[u8], want: Option<&[u8]>) -> (Value, bool) {
     let r = catch_unwind(AssertUnwindSafe(|| {
         if zlib {
             decompress_to_vec_zlib(z)
@@ -74,10 +79,13 @@ fn dec_summary(zlib: bool, z: &[u8]) -> Value {
         }
     }));
     match r {
-        Err(_) => json!({"status": "panic"}),
-        Ok(Ok(v)) => json!({"status": "Ok", "len": v.len(), "adler": pair_json(adler_pair(&v))}),
+        Err(_) => (json!({"status": "panic"}), false),
+        Ok(Ok(v)) => {
+            let eq = want.map_or(true, |w| w == &v[..]);
+            (json!({"status": "Ok", "len": v.len(), "adler": pair_json(adler_pair(&v))}), eq)
+        }
         Ok(Err(e)) => {
-            json!({"status": format!("{:?}", e.status), "len": e.output.len(), "adler": pair_json(adler_pair(&e.output))})
+            (json!({"status": format!("{:?}", e.status), "len": e.output.len(), "adler": pair_json(adler_pair(&e.output))}), false)
         }
     }
 }
@@ -163,7 +171,7 @@ pub fn stream_comp_case(
     sch: &Sched,
     r: &mut StdRng,
     kind: &str,
-) {
+) -> bool {
     tr.case(id, prop, json!({"kind": kind, "n": input.len(), "chunks": sch.chunk_pat, "cb": sch.callback}));
     let mut c = cfg.make();
     let cfgj = cfg.json(&c);
@@ -185,7 +193,7 @@ pub fn stream_comp_case(
         calls += 1;
         if calls > 400_000 {
             tr.ev(json!({"ev": "hang", "where": "compress loop"}));
-            return;
+            return true;
         }
         if pos == offered_end && ci < chunks.len() {
             offered_end += chunks[ci];
@@ -238,7 +246,7 @@ pub fn stream_comp_case(
             None => {
                 tr.ev(json!({"ev": "panic", "where": "compress", "flush": FLUSHES[flush_i].0,
                              "in_len": chunk.len(), "out_len": out_len}));
-                return;
+                return true;
             }
             Some(x) => x,
         };
@@ -252,7 +260,7 @@ pub fn stream_comp_case(
         }
         tr.ev(e);
         if used > chunk.len() || (!sch.callback && w > olen) {
-            return; // contract already violated; the trace spec reports it
+            return true; // contract already violated; the trace spec reports it
         }
         pos += used;
         // flush point (C12): request made with nothing pending, all offered input consumed,
@@ -277,7 +285,7 @@ pub fn stream_comp_case(
             TDEFLStatus::Done => break,
             TDEFLStatus::Okay => {}
             _ => {
-                return;
+                return true;
             }
         }
     }
@@ -290,7 +298,9 @@ pub fn stream_comp_case(
         ce["redundant"] = json!(true);
     }
     tr.ev(ce);
-    tr.ev(json!({"ev": "roundtrip", "dec": dec_summary(zl, &out_all)}));
+    let (ds, eq) = dec_summary_eq(zl, &out_all, Some(input));
+    tr.ev(json!({"ev": "roundtrip", "dec": ds}));
+    !eq
 }
 
 pub fn mzflush_name(f: MZFlush) -> &'static str {
